@@ -485,7 +485,7 @@ PROPS = {
     },
     "C12": {
         "translators": ["translator_c19", "translator_c09", "translator_c04"],
-        "generators": [("c12", 1500, 20000), ("c06pc", 2000, 40000)],
+        "generators": [("c12", 1500, 20000), ("c06pc", 2000, 40000), ("c12pole", 16000, 160000)],
         "modules": ["S2.CellM", "S2.STUV", "S2.Hilbert", "S2.CellID", "S2.F64", "S2.Exact", "S2.PaddedCellM", "S2.Generated.PaddedCellFns"],
         "rule": "cells: exhaustive levels 0-2 (thorough 0-4) plus structured random cells of every level (cube corners, face edges, "
                 "the four cells around each pole, coarse grid lines, uniform); per cell: Children vs direct construction (cellch), RectBound/"
@@ -496,6 +496,12 @@ PROPS = {
                 "2^-60..1 from a vertex, ~90 degrees from the centre, uniform, each optionally +-1..3 ulps per coordinate; edges (celledge): "
                 "pairs of such targets, grazing a vertex, ending at a vertex, running along a cell edge, short edges; cell pairs (cellcell): "
                 "same, edge/all neighbours, nested, antipodal, neighbours at other levels, neighbours of neighbours, random. "
+                "c12pole (defect D58): targets t = -n/|n| -/+ beta*mid (face frame; n = inward normal of the plane of one of the four cell "
+                "edges, mid = unit vector of the edge midpoint), i.e. within beta of a POLE of the edge's great circle, beta log-uniform in "
+                "[2^-40, 2^-57/edge length], levels 13..30 (half of them 24..30), cells 3/4 uniform + 1/4 structured, three modes: plain, "
+                "+2^-52 noise per coordinate, coordinates moved by <= 2 ulps until the generator's own evaluation of the two tangential dot "
+                "products has the signs of a (noisy) yes; every sample emitted; measured: 0.56 % of the lines fail on the tree without the "
+                "margin of repair D58 (89 of 16000), none of 10^5 on the repaired tree (worst deviation 1.7e-15 against a tolerance of 2e-12). "
                 "non-trivial = any cellpt/celledge/cellcell line whose reported minimum distance is non-zero, and every cellch line of a "
                 "non-leaf cell; distinct = distinct (op, arguments)",
         "nontrivial": lambda l: (l.split(" ", 1)[0] in ("cellpt", "celledge", "cellcell") and " = " in l
@@ -514,7 +520,10 @@ PROPS = {
         ],
         "assumptions": ["targets are finite non-zero vectors normalized to within r3.Vector.Normalize's guarantee; edge endpoints are never antipodal"],
         "partial": ["ContainsClaim (float margin of ContainsPoint)", "DistanceAttained / DistanceLowerBound / MaxDistanceUpperBound (numeric; "
-                    "the former NaN refutations (D28) are fixed: former_NaN_inputs_fixed; what is proved is distanceLowerBound_partial)"],
+                    "the former NaN refutations (D28) are fixed: former_NaN_inputs_fixed; what is proved is distanceLowerBound_partial)",
+                    "point-target distances (C12_Distance, after repair D58): LOWER BOUND (2^-45), MaxDistance UPPER BOUND (2^-44) and ATTAINED "
+                    "(2^-47 + (|p|-1)^2, all branches, no proviso) PROVED for all valid cells and unit-ish points; the attained claim is "
+                    "refuted on the faithful pre-repair model (distance_attained_false_before_repair); BoundaryDistance / edge / cell targets: judged only"],
     },
     "C08": {
         # generator, quick n, thorough n (sharded over the cores by ./check; n/2 bare coverings + n/6 index/target
